@@ -291,7 +291,7 @@ def builder_flag_findings(env):
                     elif ty.startswith("std::option::Option<") and ty[20:-1] in INT_TYPES:
                         args.append(G.LazyOption("arg%d" % i, ty[20:-1]))
                     else:
-                        raise Unanalysable("builder %s takes %s" % (k, ty))
+                        args.append(G.generic_unknown(prog, "arg%d" % i, ty, []))     # enums, small structs, byte vectors ...
                 one.last = (h, bools, None)
                 r = I.call(k, args)
                 return (h, bools, r)
